@@ -12,7 +12,10 @@ def gz(n):
 FILES = ["workload/jobs.py", "workload/workload.py", "utils.py", "data/workload_loader.py", "data/worker_loader.py",
          "workload/graph.py", "workload/profile.py", "workload/strategy.py", "workload/resource.py"]
 TRUSTED = [
-    "translator py2v.py fragment Time (EventTime arithmetic used by the model is the translated one)",
+    "translator py2v.py fragment Time (EventTime arithmetic used by the model is the translated one) and fragment Release "
+    "(translator/frag_release.py: arguments of np.arange/np.linspace, draw counts, gamma seed, closed-loop counts and "
+    "guards, task release times, clamp/rounding/interval of EventTime.fuzz; tied to the model by Proofs/ReleasePBridge.v); "
+    "the rest of the hand-written model follows the source by differential correspondence only",
     "IEEE-754 binary64: modelled as exact dyadic rationals with round-to-nearest-even to 53 bits after every "
     "operation (Model/Release.v round53/fl_add/fl_mul/fl_div); overflow/inf/nan and -0.0 are outside the model; "
     "checked against CPython/numpy by the S-float stream, not proved against Flocq",
